@@ -1,1 +1,6 @@
 // harnesses for module builder (included under cfg(kani))
+
+/// read-only view of a builder's effective settings for harnesses in other modules
+pub(crate) fn builder_settings<B>(b: &RequestBuilder<B>) -> &BaseSettings {
+    &b.base_settings
+}
